@@ -110,6 +110,14 @@ def _len_before_names(fn: FuncInfo, ra: set[str]) -> set[str]:
     return out
 
 
+def _resolve_alias(fn: FuncInfo, e: ast.AST) -> str:
+    if isinstance(e, ast.Name):
+        src = [a for a in walk_no_nested(fn.node) if isinstance(a, ast.Assign) and norm(a.targets[0]) == e.id]
+        if len(src) == 1:
+            return norm(src[0].value)
+    return norm(e)
+
+
 def _match(fn: FuncInfo, m: R.ItemsMutation, call: ast.Call, ra: set[str]) -> str:
     l, r, vals = call.args
     lens = _len_before_names(fn, ra)
@@ -127,8 +135,9 @@ def _match(fn: FuncInfo, m: R.ItemsMutation, call: ast.Call, ra: set[str]) -> st
             rng = sl.args[0].id
         if rng is None:
             return f'slice {norm(sl)} not understood'
-        if norm(l) != f'{rng}.start' or norm(r) != f'{rng}.stop':
-            return f'items[{norm(sl)}] = ... is announced as range ({norm(l)}, {norm(r)}), expected ({rng}.start, {rng}.stop)'
+        r_src = _resolve_alias(fn, r)
+        if norm(l) != f'{rng}.start' or r_src not in (f'{rng}.stop', f'max({rng}.start, {rng}.stop)', f'max({rng}.stop, {rng}.start)'):
+            return f'items[{norm(sl)}] = ... is announced as range ({norm(l)}, {r_src}), expected ({rng}.start, {rng}.stop)'
         if norm(vals) != norm(v):
             return f'announced values {norm(vals)} differ from assigned {norm(v)}'
         return ''
@@ -195,6 +204,46 @@ def rule_sign_idx(ctx: RuleContext, p: Program, fns: list[tuple[FuncInfo, set[st
                       f'record wrong indexes', fn.where, note='non-negative on all paths')
     if n < 6:
         raise AnalysisError(f'SIGN-IDX: only {n} notification sites (6 confirmed by hand)')
+
+
+def rule_notify_order(ctx: RuleContext, p: Program, fns: list[tuple[FuncInfo, set[str]]], rid: str) -> None:
+    ctx.rule(rid, 'every _notify_splice(l, r, values) announces an ordered range l <= r: r - l is a non-negative constant, or r is '
+                  'max(l, ...), or (rng.start, rng.stop) of a range built from an *int* index; a range built from a slice can be empty '
+                  'with start > stop (a[4:2] = [x] inserts at 4) and the views compute len(values) - (r - l)')
+    n = 0
+    for fn, ra in fns:
+        for c in _notify_calls(fn):
+            n += 1
+            l, r = c.args[0], c.args[1]
+            env = {a.targets[0].id: a.value for a in walk_no_nested(fn.node)
+                   if isinstance(a, ast.Assign) and isinstance(a.targets[0], ast.Name)}
+            rr: ast.AST = r
+            if isinstance(rr, ast.Name) and rr.id in env and not isinstance(l, ast.Name):
+                rr = env[rr.id]
+            elif isinstance(rr, ast.Name) and rr.id in env and norm(l) != rr.id:
+                rr = env[rr.id]
+            ok = False
+            why = ''
+            d = linear.linear(ast.BinOp(left=rr, op=ast.Sub(), right=l))
+            if not d[0] and d[1] >= 0:
+                ok = True
+            elif isinstance(rr, ast.Call) and norm(rr.func) == 'max' and any(norm(a) == norm(l) for a in rr.args):
+                ok = True
+            elif isinstance(l, ast.Attribute) and isinstance(rr, ast.Attribute) and l.attr == 'start' and rr.attr == 'stop' \
+                    and norm(l.value) == norm(rr.value) and isinstance(l.value, ast.Name):
+                src = env.get(l.value.id)
+                ix = src.args[0] if isinstance(src, ast.Call) and (dotted(src.func) or '').endswith('range_from_index') and src.args else None
+                ann = {a.arg: norm(a.annotation) for a in fn.node.args.args if a.annotation is not None}
+                if isinstance(ix, ast.Name) and ann.get(ix.id) == 'int':
+                    ok = True
+                else:
+                    why = f'{norm(l.value)} comes from a slice: it may be empty with start > stop'
+            ctx.check(ok, rid, f'{fn.module.name.split(".", 1)[1]}:{fn.qualname}', norm(c),
+                      f'`{norm(c)}`: the announced range is not provably ordered ({why or "r - l is not a non-negative constant"}); for '
+                      f'a[4:2] = [x] the views shift by len(values) - (r - l) with r < l and lose track of their items', fn.where,
+                      note='l <= r')
+    if n < 6:
+        raise AnalysisError(f'NOTIFY-ORDER: only {n} notification sites')
 
 
 def rule_own_idx(ctx: RuleContext, p: Program, rid: str) -> None:
@@ -380,6 +429,7 @@ def run(ctx: RuleContext, p: Program) -> None:
     fns = rule_notify_post(ctx, p, 'NOTIFY-POST')
     rule_notify_args(ctx, p, fns, 'NOTIFY-ARGS')
     rule_sign_idx(ctx, p, fns, 'SIGN-IDX')
+    rule_notify_order(ctx, p, fns, 'NOTIFY-ORDER')
     rule_own_idx(ctx, p, 'OWN-IDX')
     rule_handler_form(ctx, p, 'HANDLER-FORM')
     rule_view_read(ctx, p, 'VIEW-READ')
